@@ -96,7 +96,8 @@ func c20Handler(w http.ResponseWriter, r *http.Request) {
 
 func c20Config(variant int, seq int) *config.PikeConfig {
 	cacheName := "c20cache"
-	loc := config.LocationConfig{Name: "c20loc", Upstream: "c20up"}
+	// half of the traffic goes through a rewrite rule with two captures
+	loc := config.LocationConfig{Name: "c20loc", Upstream: "c20up", Rewrites: []string{"/c20r/*/*:/c20/$1/$2"}}
 	srv := config.ServerConfig{Addr: c20Addr, Locations: []string{"c20loc"}, Cache: cacheName, Compress: "c20cp"}
 	cp := config.CompressConfig{Name: "c20cp", Levels: map[string]uint{"gzip": 6, "br": 4}}
 	if variant%2 == 1 {
@@ -222,6 +223,9 @@ func execC20(ph c20Phase) *vstat.Outcome {
 					method = "POST"
 				}
 				uri := fmt.Sprintf("/c20/%s/%s", phaseTag, key)
+				if rng.Intn(2) == 0 {
+					uri = fmt.Sprintf("/c20r/%s/%s", phaseTag, key)
+				}
 				r := do(cl, reqSpec{Method: method, Addr: addr, Host: "c20.test", URI: uri, Header: h})
 				atomic.AddInt64(&st.reqs, 1)
 				if r.Err != "" {
